@@ -37,6 +37,8 @@ def run(index, rep):
     rep.guard(r3, index, rep, flow)
     rep.guard(skip, index, rep)
     rep.guard(minimum, index, rep)
+    from .lanes import lane_rule
+    rep.guard(lane_rule, index, rep, "C03.ARGLANE", ("feed", "biofuel"), 40, "feed and biofuel crossed at a call")
     rep.guard(toothless, index, rep)
 
 
